@@ -7,6 +7,7 @@ package main
 
 import (
 	"fmt"
+	"go/ast"
 	"go/constant"
 	"go/token"
 	"go/types"
@@ -29,6 +30,7 @@ type Obligation struct {
 	Safety  bool
 	Ctx     *Ctx
 	Parts   []Term      // when set: the goal is the conjunction of these, each discharged by its own query
+	SubObls []*Obligation // when set: discharged iff every sub-obligation is (each has its own guard and context prefix)
 	Inputs  []NamedTerm // terms worth evaluating in a model
 	Outputs []NamedTerm
 	// results
@@ -94,6 +96,164 @@ type Exec struct {
 	callSeen map[string]bool
 	assertSeen map[string]bool
 	autoRange  map[*ssa.BasicBlock]*rangeInv
+	ghostKeys  map[string]string
+	private    map[*ssa.Alloc]bool
+	paramNames map[string]bool
+	debugBound map[*Env]map[string]bool
+}
+
+// addLoopPart: the obligations of one loop clause at the different back edges
+// are parts of ONE obligation named after the clause (stable when the number
+// of back edges changes).
+func (ex *Exec) addLoopPart(kind string, idx int, cl *Clause, guard, goal Term, pos token.Pos) {
+	name := fmt.Sprintf("%s/%s#%d", ex.top.fname, kind, idx)
+	if cl.Label != "" {
+		name = fmt.Sprintf("%s/%s@%s", ex.top.fname, kind, cl.Label)
+	}
+	if ex != ex.top {
+		name += "[in " + ex.fname + "]"
+	}
+	var parent *Obligation
+	for _, o := range *ex.obls {
+		if o.Name == name {
+			parent = o
+		}
+	}
+	if parent == nil {
+		parent = &Obligation{Name: name, Kind: kind, Func: ex.top.fname, Guard: "true", Goal: "true", Pos: ex.v.posStr(pos), Text: cl.Text, Ctx: ex.c, Inputs: ex.top.inputs}
+		*ex.obls = append(*ex.obls, parent)
+	}
+	sub := &Obligation{Name: fmt.Sprintf("%s.edge%d", name, len(parent.SubObls)), Kind: kind, Func: ex.top.fname, Mark: ex.c.mark(), Guard: guard, Goal: goal,
+		Pos: parent.Pos, Text: cl.Text, Ctx: ex.c, Inputs: ex.top.inputs}
+	parent.SubObls = append(parent.SubObls, sub)
+	parent.Mark = sub.Mark
+}
+
+// privateAllocs: the allocations of fn whose address never leaves the
+// function except into closures that are only started with `go`/`defer` or
+// called directly. A callee cannot reach such a cell, so its content survives
+// a call whose contract says `modifies everything`.
+func privateAllocs(fn *ssa.Function) map[*ssa.Alloc]bool {
+	out := map[*ssa.Alloc]bool{}
+	var okUse func(v ssa.Value, depth int) bool
+	okUse = func(v ssa.Value, depth int) bool {
+		refs := v.Referrers()
+		if refs == nil || depth > 4 {
+			return false
+		}
+		for _, r := range *refs {
+			switch r := r.(type) {
+			case *ssa.DebugRef:
+			case *ssa.UnOp:
+				if r.Op != token.MUL {
+					return false
+				}
+			case *ssa.Store:
+				if r.Val == v {
+					return false
+				}
+			case *ssa.FieldAddr:
+				if !okUse(r, depth+1) {
+					return false
+				}
+			case *ssa.IndexAddr:
+				if !okUse(r, depth+1) {
+					return false
+				}
+			case *ssa.MakeClosure:
+				// the closure itself must not leak
+				crefs := r.Referrers()
+				if crefs == nil {
+					return false
+				}
+				for _, cr := range *crefs {
+					switch cr := cr.(type) {
+					case *ssa.Go:
+						if cr.Call.Value != r {
+							return false
+						}
+					case *ssa.Defer:
+						if cr.Call.Value != r {
+							return false
+						}
+					case *ssa.Call:
+						if cr.Call.Value != r {
+							return false
+						}
+					case *ssa.DebugRef:
+					default:
+						return false
+					}
+				}
+			default:
+				return false
+			}
+		}
+		return true
+	}
+	for _, b := range fn.Blocks {
+		for _, in := range b.Instrs {
+			if al, ok := in.(*ssa.Alloc); ok && okUse(al, 0) {
+				out[al] = true
+			}
+		}
+	}
+	return out
+}
+
+// havocAllKeepPrivate forgets memory except the cells of private allocations.
+func (ex *Exec) havocAllKeepPrivate() {
+	c := ex.c
+	if ex.private == nil {
+		ex.private = privateAllocs(ex.fn)
+	}
+	old := ex.cur.clone()
+	c.havocAll(ex.cur)
+	for al := range ex.private {
+		av, ok := ex.vals[al]
+		if !ok || av.K != KRef || av.T == "" {
+			continue
+		}
+		et := al.Type().Underlying().(*types.Pointer).Elem()
+		func() {
+			defer func() { recover() }()
+			c.store(ex.cur, av.T, et, c.load(old, av.T, et))
+		}()
+	}
+}
+
+// ghostNames: memory keys of the ghost counters bumped inside... (all of them:
+// conservative) — used when a loop havocs everything.
+func (ex *Exec) ghostNames() []string {
+	var out []string
+	if ex.top.fc != nil {
+		for _, g := range ex.top.fc.Ghosts {
+			out = append(out, ghostKey(g.Name))
+		}
+	}
+	return out
+}
+
+func ghostKey(name string) string {
+	k := "Mghost " + name
+	if _, ok := memSorts[k]; !ok {
+		memSorts[k] = "(Array Int (_ BitVec 64))"
+	}
+	return k
+}
+
+// bumpGhosts increments the ghost counters that count this callee.
+func (ex *Exec) bumpGhosts(callee string) {
+	if ex != ex.top || ex.fc == nil {
+		return
+	}
+	for _, g := range ex.fc.Ghosts {
+		if strings.Contains(callee, g.Callee) {
+			k := ghostKey(g.Name)
+			old := ex.c.memRaw(ex.cur, k)
+			ex.cur.m[k] = ex.c.define("ghost", "(Array Int (_ BitVec 64))", app("store", old, "0", app("bvadd", app("select", old, "0"), bvLit(64, 1))))
+		}
+	}
 }
 
 type rangeInv struct {
@@ -631,10 +791,52 @@ func (ex *Exec) bindDominating(env *Env, at ssa.Instruction) {
 			env.vars[val.Name()] = x
 		}
 	}
+	ex.bindDebugNames(env, blk)
+}
+
+// bindDebugNames binds source-level local variable names (go/ssa DebugRef,
+// built with GlobalDebug) to the value they hold: the last definition, in
+// block order, among the blocks that dominate blk (all blocks when blk is nil).
+func (ex *Exec) bindDebugNames(env *Env, blk *ssa.BasicBlock) {
+	for _, b := range ex.fn.Blocks {
+		if blk != nil && !(b == blk || b.Dominates(blk)) {
+			continue
+		}
+		for _, in := range b.Instrs {
+			d, ok := in.(*ssa.DebugRef)
+			if !ok || d.IsAddr {
+				continue
+			}
+			id, ok := d.Expr.(*ast.Ident)
+			if !ok || id.Name == "_" {
+				continue
+			}
+			x, ok := ex.vals[d.X]
+			if !ok {
+				if _, isC := d.X.(*ssa.Const); isC {
+					x = ex.val(d.X)
+				} else {
+					continue
+				}
+			}
+			if _, isParam := ex.paramNames[id.Name]; isParam {
+				continue
+			}
+			if prev, bound := env.vars[id.Name]; bound && !ex.debugBound[env][id.Name] {
+				_ = prev
+				continue // a contract-level name (param, alloc, phi) wins
+			}
+			if ex.debugBound[env] == nil {
+				ex.debugBound[env] = map[string]bool{}
+			}
+			ex.debugBound[env][id.Name] = true
+			env.vars[id.Name] = x
+		}
+	}
 }
 
 func (ex *Exec) baseEnv(mem *MemState) *Env {
-	env := &Env{c: ex.c, v: ex.v, vars: map[string]Val{}, mem: mem, pkg: ex.fn.Pkg.Pkg}
+	env := &Env{c: ex.c, v: ex.v, vars: map[string]Val{}, mem: mem, pkg: ex.fn.Pkg.Pkg, ghosts: ex.top.ghostKeys}
 	if ex.entryEnv != nil {
 		env.old = ex.entryEnv
 		for k, v := range ex.entryEnv.vars {
@@ -673,6 +875,28 @@ func (ex *Exec) havocLoopMemory(li *loopInfo) {
 			switch in := in.(type) {
 			case *ssa.Store:
 				et := in.Addr.Type().Underlying().(*types.Pointer).Elem()
+				if sv := sliceOrigin(in.Addr); sv != nil {
+					// element store: the slice variable's cell changes
+					if ld, ok := sv.(*ssa.UnOp); ok && ld.Op == token.MUL {
+						if a, ok := ex.staticAddr(ld.X, inLoop); ok {
+							cellsToHavoc = append(cellsToHavoc, c.cells(a, sv.Type())...)
+							continue
+						}
+					}
+					if !inLoop(sv) {
+						if cur, ok := ex.vals[sv]; ok && cur.K == KSlice {
+							h := cur
+							h.Arr = nil
+							for _, so := range c.leafSorts(cur.Elem) {
+								h.Arr = append(h.Arr, c.declConst(c.fresh("elemhavoc"), arrSort(bvSort(64), so)))
+							}
+							ex.vals[sv] = h
+							continue
+						}
+					}
+					markType(sv.Type())
+					continue
+				}
 				if a, ok := ex.staticAddr(in.Addr, inLoop); ok {
 					cellsToHavoc = append(cellsToHavoc, c.cells(a, et)...)
 					continue
@@ -695,6 +919,13 @@ func (ex *Exec) havocLoopMemory(li *loopInfo) {
 					}
 				}
 			case *ssa.Call:
+				if ex == ex.top && ex.fc != nil {
+					for _, g := range ex.fc.Ghosts {
+						if strings.Contains(calleeName(in.Common()), g.Callee) {
+							wholeKeys[ghostKey(g.Name)] = true
+						}
+					}
+				}
 				if cs, ok := ex.loopCallCells(in.Common(), inLoop); ok {
 					cellsToHavoc = append(cellsToHavoc, cs...)
 					continue
@@ -722,8 +953,16 @@ func (ex *Exec) havocLoopMemory(li *loopInfo) {
 		}
 	}
 	if all {
-		c.havocAll(ex.cur)
-		return
+		// everything except private allocations; the private cells that the
+		// loop itself writes are havocked below
+		ex.havocAllKeepPrivate()
+		keep := map[string]bool{}
+		for k := range wholeKeys {
+			if strings.HasPrefix(k, "Mghost ") {
+				keep[k] = true // counters bumped inside this loop
+			}
+		}
+		wholeKeys = keep
 	}
 	for _, cl := range cellsToHavoc {
 		c.havocCell(ex.cur, cl, "loopcell")
@@ -735,6 +974,24 @@ func (ex *Exec) havocLoopMemory(li *loopInfo) {
 	sort.Strings(ks)
 	for _, k := range ks {
 		c.havocKey(ex.cur, k)
+	}
+}
+
+// sliceOrigin: if address v denotes (a field of) an element of a slice, the
+// SSA value of that slice.
+func sliceOrigin(v ssa.Value) ssa.Value {
+	for {
+		switch x := v.(type) {
+		case *ssa.FieldAddr:
+			v = x.X
+		case *ssa.IndexAddr:
+			if _, ok := x.X.Type().Underlying().(*types.Slice); ok {
+				return x.X
+			}
+			v = x.X
+		default:
+			return nil
+		}
 	}
 }
 
@@ -834,24 +1091,36 @@ func (ex *Exec) backEdge(from, h *ssa.BasicBlock) {
 	cond := ex.edgeCond(from, h)
 	env := ex.loopEnv(h, func(phi *ssa.Phi) Val { return ex.phiEdgeVal(phi, h, from) }, ex.cur)
 	ex.bindDominating(env, from.Instrs[len(from.Instrs)-1])
+	for k, nv := range ex.top.named {
+		if _, clash := env.vars[k]; !clash {
+			env.vars[k] = nv
+		}
+	}
 	if auto := ex.autoRange[h]; auto != nil {
 		ex.addObl(fmt.Sprintf("loop%d/range-preserve", li.index), "", cond, auto.holds(ex.phiEdgeVal(auto.phi, h, from).T), li.pos, "-1 <= rangeindex < len (automatic)", false)
 	}
 	if li.spec != nil {
-		for _, inv := range li.spec.Invariants {
+		for k, inv := range li.spec.Invariants {
 			t, err := env.Goal(inv.E)
 			if err != nil {
 				unsup("loop %d invariant: %v", li.index, err)
 			}
-			ex.addObl(fmt.Sprintf("loop%d/inv-preserve", li.index), inv.Label, cond, t, li.pos, inv.Text, false)
+			ex.addLoopPart(fmt.Sprintf("loop%d/inv-preserve", li.index), k, inv, cond, t, li.pos)
 		}
-		for _, st := range li.spec.Steps {
+		for k, st := range li.spec.Steps {
 			env.prev = ex.headerEnv[h]
 			t, err := env.Goal(st.E)
 			if err != nil {
-				unsup("loop %d step: %v", li.index, err)
+				if strings.Contains(err.Error(), "unknown identifier") {
+					// the clause speaks about a call that was not executed on
+					// this path through the loop body: the step relation does
+					// not hold on this path
+					t = "false"
+				} else {
+					unsup("loop %d step: %v", li.index, err)
+				}
 			}
-			ex.addObl(fmt.Sprintf("loop%d/step", li.index), st.Label, cond, t, li.pos, st.Text, false)
+			ex.addLoopPart(fmt.Sprintf("loop%d/step", li.index), k, st, cond, t, li.pos)
 		}
 		if li.spec.Decreases != nil {
 			nv, err := env.Value(li.spec.Decreases.E)
